@@ -30,6 +30,10 @@ theorem fact_collect_guard : Facts.C15.collectPayloadGuard = "len(transaction.PA
 theorem fact_payload_store_checks :
     Facts.C15.payloadStoreChecks = ["ref.Empty()", "len(msg.Data) == 0", "err != nil", "!tx.PayloadHash().Equals(payloadHash)"] := by decide
 
+/-- a node without node DID has no private payload receiver; the handler checks for that instead of dereferencing
+    nil (the model has no panic outcome there) -/
+theorem fact_payload_finished_nil_guard : Facts.C15.payloadFinishedNilGuard = true := by decide
+
 /-- the only functions of the protocol package that put payload bytes into an outgoing message -/
 theorem fact_payload_writers :
     Facts.C15.payloadBytesWriters = ["handleTransactionPayloadQuery", "collectTransactionList"] := by decide
@@ -237,9 +241,7 @@ theorem payload_stored_only_if_hash_matches (n : Node) (ref : Ref) (data : Optio
             rw [htx] at hg; cases hg
             simp [hs] at hsha
           · rename_i hsha
-            refine Or.inl ⟨p, tx, rfl, by simpa using href, by simpa using hlen, htx, by simpa using hsha, ?_⟩
-            simp only
-            split <;> rfl
+            exact Or.inl ⟨p, tx, rfl, by simpa using href, by simpa using hlen, htx, by simpa using hsha, rfl⟩
 
 /-! ### authentication -/
 
